@@ -73,7 +73,7 @@ Definition set_endian (e : endian) (v : dview) : dview :=
      v_meminfo := v_meminfo v; v_misc := v_misc v;
      v_breakpad := v_breakpad v; v_assertion := v_assertion v; v_thread_info := v_thread_info v;
      v_lx_cpuinfo := v_lx_cpuinfo v; v_lx_status := v_lx_status v; v_lx_lsb := v_lx_lsb v;
-     v_lx_environ := v_lx_environ v; v_lx_maps := v_lx_maps v; v_lx_limits := v_lx_limits v |}.
+     v_lx_environ := v_lx_environ v; v_lx_maps := v_lx_maps v; v_lx_limits := v_lx_limits v; v_handles := v_handles v |}.
 
 Theorem endian_independent : forall m, wf_model LE m = true -> wf_model BE m = true ->
   option_map (set_endian LE) (decode_dump (encode_dump LE m)) =
@@ -99,7 +99,7 @@ Definition set_extra (m : model) (x : list (Z * (Z * Z))) : model :=
      m_tnames := m_tnames m; m_unloaded := m_unloaded m; m_meminfo := m_meminfo m; m_misc := m_misc m;
      m_breakpad := m_breakpad m; m_assertion := m_assertion m; m_thread_info := m_thread_info m;
      m_lx_cpuinfo := m_lx_cpuinfo m; m_lx_status := m_lx_status m; m_lx_lsb := m_lx_lsb m;
-     m_lx_environ := m_lx_environ m; m_lx_maps := m_lx_maps m; m_lx_limits := m_lx_limits m |}.
+     m_lx_environ := m_lx_environ m; m_lx_maps := m_lx_maps m; m_lx_limits := m_lx_limits m; m_handles := m_handles m |}.
 
 (* whatever entries precede the real ones in the directory (including entries of the same types
    pointing anywhere), the reader serves the later, real ones *)
@@ -289,13 +289,15 @@ Lemma stream_roundtrips : forall e,
   sec_ok (enc_exlist meminfo_codec e MEMINFO_HDR 8) (dec_exlist meminfo_codec e true) (forallb wf_meminfo) /\
   (forall L, sec_ok (enc_flat L e) (dec_flat L e) (wf_flat L)) /\
   (forall L, 1 <= lsize L < 4294967296 -> icodec_ok (flat_codec L) e (wf_flat L)) /\
-  sec_ok (enc_raw e) (dec_raw e) (fun _ => true).
+  sec_ok (enc_raw e) (dec_raw e) (fun _ => true) /\
+  sec_ok (enc_handles e) (dec_handles e) wf_handles.
 Proof.
   intro e. split; [apply mem64_roundtrip|]. split; [apply exception_roundtrip|]. split; [apply sysinfo_roundtrip|].
-  split; [apply misc_roundtrip|]. split; [|split; [|split; [|split]]].
+  split; [apply misc_roundtrip|]. split; [|split; [|split; [|split; [|split]]]].
   - apply (exlist_roundtrip unloaded_codec e wf_unloaded (unloaded_ok e) false UNLOADED_HDR 4). right. repeat split.
   - apply (exlist_roundtrip meminfo_codec e wf_meminfo (meminfo_ok e) true MEMINFO_HDR 8). left. repeat split.
   - intro L. apply flat_roundtrip.
   - intros L H. apply flat_codec_ok. exact H.
   - apply raw_roundtrip.
+  - apply handles_roundtrip.
 Qed.
